@@ -484,6 +484,10 @@ class Graph(object):
             # Apply the updates
             update_start_time = time.time()
             for v in self._vertices:
+                # Fixed vertices are never updated (their block of `dx` is zero unless the solve failed)
+                if v.gradient_index in self._fixed_gradient_indices:
+                    continue
+
                 # fmt: off
                 v.pose += dx[v.gradient_index: v.gradient_index + v.pose.COMPACT_DIMENSIONALITY]
                 # fmt: on
